@@ -708,6 +708,7 @@ func Stack[V any](arguments ...any) col.StackLike[V] {
 	// Initialize the possible arguments.
 	var notation = CDCN()
 	var capacity uint
+	var hasCapacity bool
 	var values []V
 	var sequence col.Sequential[V]
 	var source string
@@ -717,8 +718,10 @@ func Stack[V any](arguments ...any) col.StackLike[V] {
 		switch actual := argument.(type) {
 		case int:
 			capacity = uint(actual)
+			hasCapacity = true
 		case uint:
 			capacity = actual
+			hasCapacity = true
 		case []V:
 			values = actual
 		case string:
@@ -764,6 +767,9 @@ func Stack[V any](arguments ...any) col.StackLike[V] {
 		// The first value is the top of the stack, as in the parsed collection,
 		// and the capacity must be large enough for all of the values.
 		stack = class.MakeFromArray(values)
+	case hasCapacity:
+		// An explicit capacity of zero is rejected by the class constructor.
+		stack = class.MakeWithCapacity(capacity)
 	default:
 		stack = class.Make()
 	}
